@@ -227,7 +227,7 @@ def run(tier, t0):
     for ch in common.chunks(sorted(set(deep)), 40):
         tasks.append((work_paths, ch))
     rs = list(range(0, 30))
-    for kind, lon, lat in geo.special_sites():
+    for kind, lon, lat in geo.special_sites(tier, common.seed()):
         if kind in ('pole', 'antimeridian') or tier == 'thorough':
             tasks.append((work_site, (kind, lon, lat, rs)))
         else:
